@@ -168,6 +168,10 @@ impl FromStr for Rune {
   type Err = Error;
 
   fn from_str(s: &str) -> Result<Self, Error> {
+    if s.is_empty() {
+      return Err(Error::Range);
+    }
+
     let mut x = 0u128;
     for (i, c) in s.chars().enumerate() {
       if i > 0 {
